@@ -589,14 +589,20 @@ func (hl MapLiteral) PrettyPrint(out *PrintState) *PrintState {
 	if out.Compact {
 		sep = ","
 	}
+	// key and value are the operands of ':' for the parser: {a: (b || c)} needs its parentheses.
+	oldExpressionPrecedence := out.ExpressionPrecedence
+	colonPrecedence := Precedences[token.COLON]
 	for i, key := range hl.Order {
 		if i > 0 {
 			out.Print(sep)
 		}
+		out.ExpressionPrecedence = colonPrecedence
 		key.PrettyPrint(out)
 		out.Print(":")
+		out.ExpressionPrecedence = colonPrecedence + 1
 		hl.Pairs[key].PrettyPrint(out)
 	}
+	out.ExpressionPrecedence = oldExpressionPrecedence
 	out.Print("}")
 	return out
 }
